@@ -50,6 +50,9 @@ CHECKS = {
  "C20": dict(level="exploration", family="views", ref="6.17",
    technique="deterministic simulation: recorded states from simulated histories with arbitrary-byte names, duplicate groups and pre-populated pool directories; reference model (decoded content + harness file copies) vs parsed tool output",
    text="On recorded states reached by seeded histories, list, status (counters, per-stripe dump, named files), dup and pool are compared with a reference computed from the independently decoded content file and the harness copy of the file contents: exact file/link sets with names inverted through the tag escaping, exact duplicate partition, exact pool tree (one link per recorded entry, first disk wins, stale links and empty dirs gone, foreign files kept)."),
+ "C16": dict(level="exploration", family="golden", ref="6.13",
+   technique="deterministic simulation over a stored corpus: arrays written by the reference commit inside this simulator (golden/, regenerated by tools/mkgolden.sh) are handed to the current code under seeded schedules, short reads, small stream buffers and device/block loss; oracles: clean verification, C01 restoration oracle, field-by-field comparison of re-saved content through the independent decoder, pinned reference hashes and GF(2^8) parity oracle",
+   text="46 reference arrays (both hash kinds x 1-6 levels and z mode x plain / split-with-limit / hash sizes 8,4,2 / 4 KiB blocks, histories with holes, moved blocks, links, scrub info) and two vector arrays with one file of every length 0..1100: with the current code check, check -a and scrub -p full are clean; after losing up to np devices or scattered blocks fix restores every byte; after the current code saves the array again (scrub, or sync after changes) every untouched file keeps the hash, size, stamp and position the reference version recorded; content format v2 input is covered by the C10 synth op, not by the corpus (the reference version writes one format)."),
  "C17": dict(level="exploration", family="split", ref="6.14",
    technique="deterministic simulation: twin arrays (single-file parity vs 2-8 split files limited by --test-parity-limit or by device byte budgets giving real ENOSPC) driven through the same seeded histories of growth, shrinkage, split removal/addition, disk loss and crash points; independent content decoder + GF(2^8) parity oracle through the recorded split map; byte comparison of concatenated splits with the twin",
    text="After every pair of syncs the recorded split sizes are block multiples, files are at least that long, no split is used after an empty one, an inner split keeps its size while the next one stays in use, sizes cover the array, and concat(splits truncated to their recorded sizes) equals the single-file parity of the twin on every used stripe of every level. The always-on parity oracle addresses parity through the split map. The documented refusals (insufficient parity space, used split removed from the configuration) change nothing. Fix after losing a split file or a data disk restores everything and check is clean; crash sweeps of syncs that move the split boundary keep the C06/C07 guarantees."),
